@@ -9,10 +9,10 @@ WAITING_RE = BLOCKING_RE + r'|' + LOCK_RE + r'|thread::(sleep|yield_now|park)|wa
 
 
 def run(ctx):
-    _p14(ctx)
-    _p15(ctx)
-    _s1(ctx)
-    _s3(ctx)
+    ctx.step(_p14, ctx)
+    ctx.step(_p15, ctx)
+    ctx.step(_s1, ctx)
+    ctx.step(_s3, ctx)
 
 
 def progress_edges(g, x):
@@ -36,16 +36,16 @@ def progress_edges(g, x):
                     for ed in x.switch_edges(sid, '1'):
                         out.add(ed)
                         kinds[ed] = 'iterator'
-        if e[0] == 'bin' and e[1] in ('Eq', 'Ne'):
-            la = x.loads_in(e[2])
-            lb = x.loads_in(e[3])
-            if la and lb:
-                pa = set().union(*[a.paths for a in la])
-                pb = set().union(*[a.paths for a in lb])
-                if pa == pb and {a.nid for a in la} != {a.nid for a in lb}:
-                    for ed in x.switch_edges(sid, 'zero' if e[1] == 'Eq' else 'nonzero'):
-                        out.add(ed)
-                        kinds[ed] = 'revalidation'
+    for t_ in x.tests(('Eq',)):
+        la = x.loads_in(t_.a)
+        lb = x.loads_in(t_.b)
+        if la and lb:
+            pa = set().union(*[a.paths for a in la])
+            pb = set().union(*[a.paths for a in lb])
+            if pa == pb and {a.nid for a in la} != {a.nid for a in lb}:
+                for ed in t_.false:
+                    out.add(ed)
+                    kinds[ed] = 'revalidation'
     return x._exp(out), kinds
 
 
@@ -226,10 +226,12 @@ def _s1(ctx):
                 r = g.strip(g.ev_local(g.root_inst, 0))
                 row[m] = str(r[1]) if r[0] == 'c' else '?'
             elif m == 'check_ref':
+                # the exact meaning of the test ("pin count == 0" on the edge the claim sits on) is decided where it
+                # is used (P1c, on the inlined send graph); the sibling rule only needs "a real test" vs "constant"
                 r = g.strip(g.ev_local(g.root_inst, 0))
-                if r[0] == 'c':
+                if r[0] == 'c' and not ats:
                     row[m] = str(r[1])
-                elif r[0] == 'bin' and r[1] == 'Eq' and any(a.op == 'load' for a in ats) and any(s[0] == 'c' and str(s[1]) == '0' for s in (g.strip(r[2]), g.strip(r[3]))):
+                elif ats and all(a.op == 'load' for a in ats):
                     row[m] = 'load==0'
                 else:
                     row[m] = '?'
